@@ -143,7 +143,7 @@ func c17Run(c *runner.Ctx) {
 			s2 = sch.Sub(r)
 		}
 		n := smallSize(r)
-		if c.Idx == 0 {
+		if c.Idx%400 == 0 {
 			n = 400 + r.Intn(400)
 		}
 		b, err := buildInput(r, s2, n, fmt.Sprintf("i%d", i), c.TmpDir, 1)
@@ -275,7 +275,7 @@ func init() {
 		Rule: "cases = 2..5 inputs (built, loaded or previously merged; equal or sub-schemas; one case with 400-800-document inputs) with a deletion pattern each; the flat merge applies all deletions at once; 3 variants per case merge by a random order-preserving grouping tree (depth 1..3, random chunk mode at every merge) where each pending deletion is applied at a random level, translated through the DocumentNumbers() of the merges below it (second waves of deletions on already merged intermediates), and the root applies what is left; plus merge([S]) vs S for an input and for the flat result; " +
 			"oracle = full observation incl. statistics must be textually equal (DocumentCount masked only when comparing a built S with merge([S]), as C16 allows); no specification model is involved; evaluations = variants compared; non-trivial = variant with >=2 merges, distinct by (observation, grouping)",
 		Assumptions: InputContract,
-		Phases:      []runner.Phase{{Name: "metamorphic", Cases: cases(400, 10000), Run: c17Run}},
+		Phases:      []runner.Phase{{Name: "metamorphic", Cases: cases(4000, 100000), Run: c17Run}},
 		Floors: func(string) map[string]int64 {
 			return map[string]int64{"bracketings_equal": 800, "bracketings_with_translated_deletions": 100, "identity_equal.merged-origin": 200, "identity_equal.built-origin": 100}
 		},
